@@ -254,6 +254,20 @@ func c14(x *mon.Ctx) {
 			add("field/minimum_tee_tcb_svn", fmt.Sprintf("len%d-equal-prefix#%d", n, rep), ref.Policy{MinTeeTcbSvn: m}, quotes, nil)
 			add("field/minimum_tee_tcb_svn", fmt.Sprintf("len%d-zero#%d", n, rep), ref.Policy{MinTeeTcbSvn: make([]byte, n)}, quotes, nil)
 		}
+		// mr_td AND any_mr_td in one policy: both must hold
+		{
+			other, other2 := variant(r, "random-differs", q.MrTd), variant(r, "first-differs", q.MrTd)
+			for pi, pinned := range [][]byte{q.MrTd, other} {
+				for li, list := range [][][]byte{{q.MrTd}, {other}, {other2, other}, {other, q.MrTd, other2}, {other2}} {
+					add("pair/mr_td+any_mr_td", fmt.Sprintf("pinned%d/list%d#%d", pi, li, rep), ref.Policy{MrTd: pinned, AnyMrTd: list}, quotes, nil)
+				}
+			}
+			// a header field of the wrong length while the body sub-policy is absent (and the other way round)
+			for _, n := range []int{1, 15, 17, 48} {
+				add("pair/absent-sub-policy+wrong-length", fmt.Sprintf("qe_vendor_id-%d-bytes/no-body#%d", n, rep), ref.Policy{QeVendorID: make([]byte, n)}, quotes, func(c *mcase) { c.NoBody = true })
+				add("pair/absent-sub-policy+wrong-length", fmt.Sprintf("mr_td-%d-bytes/no-header#%d", n, rep), ref.Policy{MrTd: make([]byte, n)}, quotes, func(c *mcase) { c.NoHeader = true })
+			}
+		}
 		// the minimum asks one more than the quote has in exactly ONE component (each of the sixteen in turn; the quote's second
 		// component — the module's major version — is non-zero here), or one less
 		for k := 0; k < 16; k++ {
